@@ -2,16 +2,19 @@
    Property theorems only; every proof is `exact <lemma>` (Proofs/C15_Proofs.v).
    The functions are the hand-written mirrors in Model/C15_Model.v that the
    correspondence check evaluates against the real fedjax functions on every run;
-   `pick` is the translated _pick_final_batch_size (shared with C03), and the model of
-   padded_batch_client_datasets is proved equal to the functions translated on this run
-   from its source text (C15_translated_is_model).
+   `pick` is the translated _pick_final_batch_size (shared with C03), and every modelled
+   function is proved equal to the pieces translated on this run from its source text
+   (C15_translated_is_model, C15_translated_shuffle_is_model, C15_translated_repeatable_is_model).
+   `draws_ok B draws` (every randint draw d satisfies -B <= d) holds for every oracle that
+   respects NumPy's contract 0 <= d < B; C15_buffered_shuffle_sound needs no hypothesis at all.
    Quantification: every row type A, every per-example preprocessor f, every
    sequence of client datasets (any sizes, empty ones included), every batch size
    >= 1, every bucket count, every buffer size >= 1, EVERY oracle (Lehmer code of the
    initial shuffle, list of randint draws), every base iterable. *)
 From Coq Require Import ZArith List Bool Permutation.
 From FV Require Import Common.ListX Common.PySem Common.Batch Model.C03_Model Proofs.C03_Proofs
-  Model.C15_Model gen.Gen_client_datasets_multi Proofs.C15_Proofs.
+  Model.C15_Model gen.Gen_client_datasets_multi gen.Gen_federated_data_c15
+  gen.Gen_in_memory_federated_data_c15 gen.Gen_sqlite_federated_data_c15 Proofs.C15_Proofs.
 Import ListNotations.
 Local Open Scope Z_scope.
 
@@ -56,7 +59,7 @@ Theorem C15_mismatch_rejected : forall (bs nb : Z) (ds : list (cds A)), 1 <= bs 
 Proof. exact (padded_mismatch_rejected zero f). Qed.
 
 Theorem C15_mismatch_rejected_shuffle : forall (bs B : Z) code draws (ds : list (cds A)), 1 <= B ->
-  consistentb ds = false ->
+  draws_ok B draws -> consistentb ds = false ->
   exists out, buffered_shuffle_batch_client_datasets (map f) bs B code draws ds = Some (out, true).
 Proof. exact (@shuffle_batch_mismatch_rejected A f). Qed.
 
@@ -70,7 +73,7 @@ Proof. exact (@pfold_mismatch A (map f)). Qed.
 (* shuffle + batch: every (client,row) item is emitted exactly once; all batches but
    the last have batch_size rows, none is empty *)
 Theorem C15_shuffle_batch_exactly_once : forall (bs B : Z) code draws (ds : list (cds A)),
-  1 <= bs -> 1 <= B -> consistentb ds = true ->
+  1 <= bs -> 1 <= B -> draws_ok B draws -> consistentb ds = true ->
   exists out, buffered_shuffle_batch_client_datasets (map f) bs B code draws ds = Some (out, false) /\
     Permutation (concat out) (map f (all_rows ds)) /\
     Forall (fun b => (1 <= length b <= Z.to_nat bs)%nat) out /\
@@ -91,10 +94,67 @@ Proof.
       (conj (gen_step_spec pre bs) (conj (gen_finish_spec zero pre bs nb) gen_init_spec))).
 Qed.
 
-(* buffered shuffling is a permutation, for every buffer size >= 1 and every oracle *)
-Theorem C15_buffered_shuffle_perm : forall {A} (B : Z) code draws (src : list A), 1 <= B ->
+(* (T) buffered_shuffle and buffered_shuffle_batch_client_datasets as translated on this run
+   (fill / shuffle / loop body / drain; gen_items body, batching loop body, final flush) *)
+Theorem C15_translated_shuffle_is_model : forall {A} (pre : list A -> list A) bs B code draws (src : list A) (ds : list (cds A)),
+  gen_buffered_shuffle B code draws src = buffered_shuffle B code draws src false /\
+  (forall (st : list A * list Z * list A) i, bshuf_step B st i = bstep B st i) /\
+  gen_shuffle_batch pre bs B code draws ds = buffered_shuffle_batch_client_datasets pre bs B code draws ds /\
+  (forall pp pf items (d : cds A), gi_step_gen pp pf items d = gi_step pp pf items d) /\
+  (forall st item, bl_step_gen pre bs st item = bl_step pre bs st item).
+Proof.
+  exact (fun A pre bs B code draws src ds =>
+    conj (gen_buffered_shuffle_spec B code draws src) (conj (gen_bstep_spec B)
+      (conj (gen_shuffle_batch_spec pre bs B code draws ds) (conj gen_gi_step_spec (gen_bl_step_spec pre bs))))).
+Qed.
+
+(* (T) RepeatableIterator.__init__ / __next__ as translated on this run *)
+Theorem C15_translated_repeatable_is_model : forall {A} container (base : list A) (s : rit (A:=A)),
+  rit_init_gen container base = rit_init container base /\ rit_next_gen s = rit_next s.
+Proof. exact (fun A container base s => conj (gen_rit_init_spec container base) (gen_rit_next_spec s)). Qed.
+
+(* buffered shuffling: WHENEVER it returns, for every buffer size and EVERY oracle, the
+   output is a permutation of the input ... *)
+Theorem C15_buffered_shuffle_sound : forall {A} (B : Z) code draws (src out : list A),
+  buffered_shuffle B code draws src false = SOk out -> Permutation src out.
+Proof. exact @buffered_shuffle_sound. Qed.
+
+(* ... and it returns for every buffer size >= 1 and every oracle with usable draws *)
+Theorem C15_buffered_shuffle_perm : forall {A} (B : Z) code draws (src : list A), 1 <= B -> draws_ok B draws ->
   exists out, buffered_shuffle B code draws src false = SOk out /\ Permutation src out.
 Proof. exact @buffered_shuffle_perm. Qed.
+
+(* FederatedData.shuffled_clients (in-memory, subset, SQLite: the translated pass of each is
+   buffered_shuffle over the clients): every pass of the stream is a permutation of the
+   clients -- each client exactly once per pass when ids are distinct *)
+Theorem C15_shuffled_pass_visits_each_once : forall {A} (B : Z) (clients : list A) oracles, 1 <= B ->
+  NoDup clients -> Forall (fun o => draws_ok B (snd o)) oracles ->
+  (forall code draws,
+     in_memory_shuffled_clients_pass B code draws clients = buffered_shuffle B code draws clients false /\
+     subset_shuffled_clients_pass B code draws clients = buffered_shuffle B code draws clients false /\
+     sqlite_shuffled_clients_pass B code draws clients = buffered_shuffle B code draws clients false) /\
+  exists passes, shuffled_clients_passes B oracles clients = Some passes /\
+    length passes = length oracles /\
+    Forall (fun p => NoDup p /\ length p = length clients /\ forall x, In x p <-> In x clients) passes.
+Proof.
+  exact (fun A B clients oracles HB Hnd Hd =>
+    conj (fun code draws => gen_shuffled_clients_pass_spec B code draws clients)
+         (shuffled_passes_nodup B clients oracles HB Hnd Hd)).
+Qed.
+
+(* shuffle_repeat_batch_federated_data (an infinite stream; its body is checked structurally by
+   the translator and composes the pieces above): after the first B + k items of the item
+   stream have been consumed, exactly k items were yielded and B are buffered, together a
+   permutation of what was consumed (nothing lost, duplicated or foreign), and the yielded
+   items never change when more of the stream is consumed *)
+Theorem C15_shuffle_repeat_prefix_exact : forall {A} (B : Z) code draws (prefix more : list A), 1 <= B ->
+  draws_ok B draws -> (Z.to_nat B <= length prefix)%nat ->
+  let n := Z.to_nat B in
+  exists out buf, bshuf_loop B (skipn n prefix) draws (apply_code code (firstn n prefix)) [] = Some (out, buf) /\
+    Permutation prefix (out ++ buf) /\ length out = (length prefix - n)%nat /\ length buf = n /\
+    (forall out2 buf2, bshuf_loop B (skipn n (prefix ++ more)) draws (apply_code code (firstn n (prefix ++ more))) []
+                       = Some (out2, buf2) -> exists later, out2 = out ++ later).
+Proof. exact @stream_prefix_exact. Qed.
 
 (* any number n of __next__ calls on a RepeatableIterator over a base producing `base`
    (builtin container or one-shot iterable, empty included) observes the first pass
@@ -138,6 +198,11 @@ Print Assumptions C15_mismatch_rejected_shuffle.
 Print Assumptions C15_mismatch_after_prefix.
 Print Assumptions C15_shuffle_batch_exactly_once.
 Print Assumptions C15_translated_is_model.
+Print Assumptions C15_translated_shuffle_is_model.
+Print Assumptions C15_translated_repeatable_is_model.
+Print Assumptions C15_buffered_shuffle_sound.
 Print Assumptions C15_buffered_shuffle_perm.
+Print Assumptions C15_shuffled_pass_visits_each_once.
+Print Assumptions C15_shuffle_repeat_prefix_exact.
 Print Assumptions C15_repeatable_replays_first_pass.
 Print Assumptions C15_repeatable_whole_passes.
